@@ -26,6 +26,20 @@ use crate::{
     void::Void,
 };
 
+fn bad_json(what: &str) -> StoryError {
+    StoryError::BadJson(format!("Unexpected JSON: {what}"))
+}
+
+fn as_str<'a>(v: &'a serde_json::Value, what: &str) -> Result<&'a str, StoryError> {
+    v.as_str().ok_or_else(|| bad_json(what))
+}
+
+fn as_i32(v: &serde_json::Value, what: &str) -> Result<i32, StoryError> {
+    v.as_i64()
+        .and_then(|i| i32::try_from(i).ok())
+        .ok_or_else(|| bad_json(what))
+}
+
 pub fn load_from_string(
     s: &str,
 ) -> Result<(i32, Rc<Container>, Rc<ListDefinitionsOrigin>), StoryError> {
@@ -42,7 +56,7 @@ pub fn load_from_string(
         ));
     }
 
-    let version: i32 = version_opt.unwrap().as_i64().unwrap().try_into().unwrap();
+    let version: i32 = as_i32(version_opt.unwrap(), "ink version")?; // unwrap: checked above
 
     if version > INK_VERSION_CURRENT {
         return Err(StoryError::BadJson(
@@ -97,10 +111,10 @@ pub fn jtoken_to_runtime_object(
         serde_json::Value::Bool(value) => Ok(Rc::new(Value::new::<bool>(value.to_owned()))),
         serde_json::Value::Number(_) => {
             if token.is_i64() {
-                let val: i32 = token.as_i64().unwrap().try_into().unwrap();
+                let val: i32 = as_i32(token, "integer out of range")?;
                 Ok(Rc::new(Value::new::<i32>(val)))
             } else {
-                let val: f32 = token.as_f64().unwrap() as f32;
+                let val: f32 = token.as_f64().ok_or_else(|| bad_json("number"))? as f32;
                 Ok(Rc::new(Value::new::<f32>(val)))
             }
         }
@@ -109,7 +123,7 @@ pub fn jtoken_to_runtime_object(
             let str = value.as_str();
 
             // String value
-            let first_char = str.chars().next().unwrap();
+            let first_char = str.chars().next().ok_or_else(|| bad_json("empty string"))?;
             if first_char == '^' {
                 return Ok(Rc::new(Value::new::<&str>(&str[1..])));
             } else if first_char == '\n' && str.len() == 1 {
@@ -162,12 +176,12 @@ pub fn jtoken_to_runtime_object(
             let prop_value = obj.get("^var");
 
             if let Some(v) = prop_value {
-                let variable_name = v.as_str().unwrap();
+                let variable_name = as_str(v, "variable pointer name")?;
                 let mut contex_index = -1;
                 let prop_value = obj.get("ci");
 
                 if let Some(v) = prop_value {
-                    contex_index = v.as_i64().unwrap() as i32;
+                    contex_index = as_i32(v, "variable pointer context index")?;
                 }
 
                 let var_ptr = Rc::new(Value::new_variable_pointer(variable_name, contex_index));
@@ -209,7 +223,8 @@ pub fn jtoken_to_runtime_object(
             }
 
             if is_divert {
-                let target = prop_value.unwrap().as_str().unwrap().to_string();
+                // unwrap: is_divert is only set when prop_value is Some
+                let target = as_str(prop_value.unwrap(), "divert target")?.to_string();
 
                 let mut var_divert_name: Option<String> = None;
                 let mut target_path: Option<String> = None;
@@ -229,7 +244,11 @@ pub fn jtoken_to_runtime_object(
                 if external {
                     prop_value = obj.get("exArgs");
                     if let Some(prop_value) = prop_value {
-                        external_args = prop_value.as_i64().unwrap() as usize;
+                        external_args = prop_value
+                            .as_u64()
+                            .and_then(|n| usize::try_from(n).ok())
+                            .filter(|n| *n <= 1024)
+                            .ok_or_else(|| bad_json("external argument count"))?;
                     }
                 }
 
@@ -248,29 +267,30 @@ pub fn jtoken_to_runtime_object(
             let prop_value = obj.get("*");
             if let Some(cp) = prop_value {
                 let mut flags = 0;
-                let path_string_on_choice = cp.as_str().unwrap();
+                let path_string_on_choice = as_str(cp, "choice point path")?;
                 let prop_value = obj.get("flg");
                 if let Some(f) = prop_value {
-                    flags = f.as_u64().unwrap();
+                    flags = as_i32(f, "choice point flags")?;
                 }
 
-                return Ok(Rc::new(ChoicePoint::new(
-                    flags as i32,
-                    path_string_on_choice,
-                )));
+                return Ok(Rc::new(ChoicePoint::new(flags, path_string_on_choice)));
             }
 
             // // Variable reference
             let prop_value = obj.get("VAR?");
             if let Some(name) = prop_value {
-                return Ok(Rc::new(VariableReference::new(name.as_str().unwrap())));
+                return Ok(Rc::new(VariableReference::new(as_str(
+                    name,
+                    "variable reference",
+                )?)));
             }
 
             let prop_value = obj.get("CNT?");
             if let Some(v) = prop_value {
-                return Ok(Rc::new(VariableReference::from_path_for_count(
-                    v.as_str().unwrap(),
-                )));
+                return Ok(Rc::new(VariableReference::from_path_for_count(as_str(
+                    v,
+                    "read count path",
+                )?)));
             }
 
             // // Variable assignment
@@ -293,7 +313,8 @@ pub fn jtoken_to_runtime_object(
             }
 
             if is_var_ass {
-                let var_name = prop_value.unwrap().as_str().unwrap();
+                // unwrap: is_var_ass is only set when prop_value is Some
+                let var_name = as_str(prop_value.unwrap(), "assigned variable name")?;
                 let prop_value = obj.get("re");
                 let is_new_decl = prop_value.is_none();
 
@@ -308,32 +329,32 @@ pub fn jtoken_to_runtime_object(
             // Legacy Tag
             prop_value = obj.get("#");
             if let Some(prop_value) = prop_value {
-                return Ok(Rc::new(Tag::new(prop_value.as_str().unwrap())));
+                return Ok(Rc::new(Tag::new(as_str(prop_value, "tag")?)));
             }
 
             // List value
             prop_value = obj.get("list");
 
             if let Some(pv) = prop_value {
-                let list_content = pv.as_object().unwrap();
+                let list_content = pv.as_object().ok_or_else(|| bad_json("list content"))?;
                 let mut raw_list = InkList::new();
 
                 prop_value = obj.get("origins");
 
                 if let Some(o) = prop_value {
-                    let names_as_objs = o.as_array().unwrap();
+                    let names_as_objs = o.as_array().ok_or_else(|| bad_json("list origins"))?;
 
                     let names = names_as_objs
                         .iter()
-                        .map(|e| e.as_str().unwrap().to_string())
-                        .collect();
+                        .map(|e| as_str(e, "list origin name").map(|s| s.to_string()))
+                        .collect::<Result<Vec<String>, StoryError>>()?;
 
                     raw_list.set_initial_origin_names(names);
                 }
 
                 for (k, v) in list_content {
                     let item = InkListItem::from_full_name(k);
-                    raw_list.items.insert(item, v.as_i64().unwrap() as i32);
+                    raw_list.items.insert(item, as_i32(v, "list item value")?);
                 }
 
                 return Ok(Rc::new(Value::new::<InkList>(raw_list)));
@@ -360,7 +381,10 @@ fn jarray_to_container(
     //  - named content
     //  - a "#f" key with the countFlags
     // (if either exists at all, otherwise null)
-    let terminating_obj = jarray[jarray.len() - 1].as_object();
+    let terminating_obj = jarray
+        .last()
+        .ok_or_else(|| bad_json("empty array where a container was expected"))?
+        .as_object();
     let mut name: Option<String> = name;
     let mut flags = 0;
 
@@ -369,16 +393,15 @@ fn jarray_to_container(
     if let Some(terminating_obj) = terminating_obj {
         for (k, v) in terminating_obj {
             match k.as_str() {
-                "#f" => flags = v.as_i64().unwrap().try_into().unwrap(),
-                "#n" => name = Some(v.as_str().unwrap().to_string()),
+                "#f" => flags = as_i32(v, "container flags")?,
+                "#n" => name = Some(as_str(v, "container name")?.to_string()),
                 k => {
-                    let named_content_item =
-                        jtoken_to_runtime_object(v, Some(k.to_string())).unwrap();
+                    let named_content_item = jtoken_to_runtime_object(v, Some(k.to_string()))?;
 
                     let named_sub_container = named_content_item
                         .into_any()
                         .downcast::<Container>()
-                        .unwrap();
+                        .map_err(|_| bad_json("named content that is not a container"))?;
 
                     named_only_content.insert(k.to_string(), named_sub_container);
                 }
@@ -402,7 +425,7 @@ pub fn jarray_to_runtime_obj_list(
     let mut count = jarray.len();
 
     if skip_last {
-        count -= 1;
+        count = count.saturating_sub(1);
     }
 
     let mut list: Vec<Rc<dyn RTObject>> = Vec::with_capacity(jarray.len());
@@ -416,12 +439,19 @@ pub fn jarray_to_runtime_obj_list(
 }
 
 fn jobject_to_choice(obj: &Map<String, serde_json::Value>) -> Result<Rc<dyn RTObject>, StoryError> {
-    let text = obj.get("text").unwrap().as_str().unwrap();
-    let index = obj.get("index").unwrap().as_u64().unwrap() as usize;
-    let source_path = obj.get("originalChoicePath").unwrap().as_str().unwrap();
-    let original_thread_index = obj.get("originalThreadIndex").unwrap().as_i64().unwrap() as usize;
-    let path_string_on_choice = obj.get("targetPath").unwrap().as_str().unwrap();
-    let choice_tags = jarray_to_tags(obj);
+    let field = |name: &str| obj.get(name).ok_or_else(|| bad_json(name));
+    let as_index = |name: &str| -> Result<usize, StoryError> {
+        field(name)?
+            .as_u64()
+            .and_then(|n| usize::try_from(n).ok())
+            .ok_or_else(|| bad_json(name))
+    };
+    let text = as_str(field("text")?, "choice text")?;
+    let index = as_index("index")?;
+    let source_path = as_str(field("originalChoicePath")?, "originalChoicePath")?;
+    let original_thread_index = as_index("originalThreadIndex")?;
+    let path_string_on_choice = as_str(field("targetPath")?, "targetPath")?;
+    let choice_tags = jarray_to_tags(obj)?;
 
     Ok(Rc::new(Choice::new_from_json(
         path_string_on_choice,
@@ -433,18 +463,18 @@ fn jobject_to_choice(obj: &Map<String, serde_json::Value>) -> Result<Rc<dyn RTOb
     )))
 }
 
-fn jarray_to_tags(obj: &Map<String, serde_json::Value>) -> Vec<String> {
+fn jarray_to_tags(obj: &Map<String, serde_json::Value>) -> Result<Vec<String>, StoryError> {
     let mut tags: Vec<String> = Vec::new();
 
     let prop_value = obj.get("tags");
     if let Some(pv) = prop_value {
-        let tags_array = pv.as_array().unwrap();
+        let tags_array = pv.as_array().ok_or_else(|| bad_json("choice tags"))?;
         for tag in tags_array {
-            tags.push(tag.as_str().unwrap().to_string());
+            tags.push(as_str(tag, "choice tag")?.to_string());
         }
     }
 
-    tags
+    Ok(tags)
 }
 
 pub fn jtoken_to_list_definitions(
@@ -452,11 +482,17 @@ pub fn jtoken_to_list_definitions(
 ) -> Result<ListDefinitionsOrigin, StoryError> {
     let mut all_defs: Vec<ListDefinition> = Vec::with_capacity(0);
 
-    for (name, list_def_json) in def.as_object().unwrap() {
+    let defs = def
+        .as_object()
+        .ok_or_else(|| bad_json("list definitions"))?;
+    for (name, list_def_json) in defs {
         // Cast (string, object) to (string, int) for items
         let mut items: HashMap<String, i32> = HashMap::new();
-        for (k, v) in list_def_json.as_object().unwrap() {
-            items.insert(k.clone(), v.as_u64().unwrap() as i32);
+        let list_def = list_def_json
+            .as_object()
+            .ok_or_else(|| bad_json("list definition"))?;
+        for (k, v) in list_def {
+            items.insert(k.clone(), as_i32(v, "list definition item value")?);
         }
 
         let def = ListDefinition::new(name.clone(), items);
@@ -477,7 +513,7 @@ pub(crate) fn jobject_to_hashmap_values(
             jtoken_to_runtime_object(v, None)?
                 .into_any()
                 .downcast::<Value>()
-                .unwrap(),
+                .map_err(|_| bad_json("variable that is not a value"))?,
         );
     }
 
@@ -490,7 +526,7 @@ pub(crate) fn jobject_to_int_hashmap(
     let mut dict: HashMap<String, i32> = HashMap::new();
 
     for (k, v) in jobj.iter() {
-        dict.insert(k.clone(), v.as_i64().unwrap() as i32);
+        dict.insert(k.clone(), as_i32(v, "count")?);
     }
 
     Ok(dict)
